@@ -15,7 +15,7 @@ pub fn def() -> PropertyDef {
     PropertyDef {
         id: "C20",
         level: "exploration",
-        rule: "authoring programs enriched with what lives in hash maps (2–4 images and several standard fonts per page, opacity ExtGStates, annotations, outline items, form fields, document info) × every non-encrypted writer configuration; the same program is rebuilt from scratch and serialised 3× in this process and once in a fresh child process (different RandomState keys) with the clock hook held fixed: all byte-identical. Sub `clock`: the same program serialised at two different fixed clock values (uncompressed classic layout): the files may differ only inside /ModDate and the XMP date values. Non-trivial: at least one page has ≥ 2 entries in a resource category (images or fonts) or the document has ≥ 2 fields/annotations/outline items; distinct by hash of the case.",
+        rule: "authoring programs enriched with what lives in hash maps (2–4 images and several standard fonts per page, opacity ExtGStates, annotations, outline items, form fields (FormManager fields with linked widgets), ICC colour spaces, tiling patterns, shadings, document info) × every non-encrypted writer configuration; the same Document object is serialised 3×, the same program is rebuilt from scratch and serialised 3× in this process and once in a fresh child process (different RandomState keys) with the clock hook held fixed: all byte-identical. Sub `clock`: the same program serialised at two different fixed clock values (uncompressed classic layout): the files may differ only inside /ModDate and the XMP date values. Non-trivial: at least one page has ≥ 2 entries in a resource category (images or fonts) or the document has ≥ 2 fields/annotations/outline items; distinct by hash of the case.",
         assumptions: &[
             "clock held fixed through hook H2 (verif_clock::set_fixed_clock), creation date set explicitly by the program",
             "the child process is a `vp worker` of the same binary; it rebuilds the document from the serialised program",
@@ -31,6 +31,14 @@ pub struct Extras {
     pub annotations: Vec<(u8, String)>, // page selector, contents
     pub outline: Vec<(String, u8)>,     // title, page selector
     pub fields: Vec<(String, String)>,  // name, value
+    /// page-level resources that live in hash maps and are written as indirect objects:
+    /// ICC colour spaces (standard profile index), tiling patterns and shadings on the first page
+    #[serde(default)]
+    pub icc: Vec<u8>,
+    #[serde(default)]
+    pub patterns: u8,
+    #[serde(default)]
+    pub shadings: u8,
 }
 
 #[derive(Clone, Debug, Serialize, Deserialize)]
@@ -45,6 +53,33 @@ pub struct Case {
 static CLOCK_LOCK: std::sync::RwLock<()> = std::sync::RwLock::new(());
 
 pub fn write(c: &Case, clock: i64) -> Result<Vec<u8>, String> {
+    write_n(c, clock, 1).map(|mut v| v.remove(0))
+}
+
+fn add_page_resources(page: &mut oxidize_pdf::Page, c: &Case) -> Result<(), String> {
+    use oxidize_pdf::graphics::{AxialShading, Color, ColorStop, DeviceColorSpace, IccProfile, PageColorSpace, PaintType, ShadingDefinition, StandardIccProfile, TilingPattern, TilingType};
+    let std_profiles = [StandardIccProfile::SRgb, StandardIccProfile::AdobeRgb, StandardIccProfile::ProPhotoRgb, StandardIccProfile::UswcSwopV2, StandardIccProfile::CoatedFogra39, StandardIccProfile::UncoatedFogra29, StandardIccProfile::GrayGamma22];
+    for (k, sel) in c.extras.icc.iter().enumerate() {
+        if *sel as usize % 8 == 7 {
+            page.add_color_space(format!("CS{k}"), PageColorSpace::DeviceAlias(DeviceColorSpace::Rgb)).map_err(|e| format!("add_color_space: {e}"))?;
+        } else {
+            let prof = IccProfile::from_standard(std_profiles[*sel as usize % 7]);
+            page.add_icc_color_space(format!("CS{k}"), &prof).map_err(|e| format!("add_icc_color_space: {e}"))?;
+        }
+    }
+    for k in 0..c.extras.patterns {
+        let pat = TilingPattern::new(format!("P{k}"), PaintType::Colored, TilingType::ConstantSpacing, [0.0, 0.0, 10.0 + k as f64, 10.0], 10.0 + k as f64, 10.0).with_content_stream(format!("0 0 {} 5 re f", 3 + k).into_bytes());
+        page.add_pattern(format!("P{k}"), pat).map_err(|e| format!("add_pattern: {e}"))?;
+    }
+    for k in 0..c.extras.shadings {
+        let sh = AxialShading::new(format!("Sh{k}"), oxidize_pdf::graphics::Point::new(0.0, 0.0), oxidize_pdf::graphics::Point::new(100.0 + k as f64, 0.0), vec![ColorStop::new(0.0, Color::rgb(1.0, 0.0, 0.0)), ColorStop::new(1.0, Color::rgb(0.0, 0.0, k as f64 / 8.0))]);
+        page.add_shading(format!("Sh{k}"), ShadingDefinition::Axial(sh)).map_err(|e| format!("add_shading: {e}"))?;
+    }
+    Ok(())
+}
+
+/// Build the document once and serialise that same `Document` object `times` times.
+pub fn write_n(c: &Case, clock: i64, times: usize) -> Result<Vec<Vec<u8>>, String> {
     let (_r, _w);
     if clock == CLOCK {
         _r = Some(CLOCK_LOCK.read().unwrap_or_else(|e| e.into_inner()));
@@ -64,7 +99,8 @@ pub fn write(c: &Case, clock: i64) -> Result<Vec<u8>, String> {
         doc.set_outline(t);
     }
     // annotations and fields need page access: rebuild pages with them (Document has no page_mut in the modelled API)
-    if !c.extras.annotations.is_empty() || !c.extras.fields.is_empty() {
+    let page_resources = !c.extras.icc.is_empty() || c.extras.patterns > 0 || c.extras.shadings > 0;
+    if !c.extras.annotations.is_empty() || !c.extras.fields.is_empty() || page_resources {
         let mut doc2 = progdoc::build_document(&Prog { pages: vec![], info: c.prog.info.clone() })?;
         let mut fm = FormManager::new();
         for (i, pg) in c.prog.pages.iter().enumerate() {
@@ -76,6 +112,7 @@ pub fn write(c: &Case, clock: i64) -> Result<Vec<u8>, String> {
                 }
             }
             if i == 0 {
+                add_page_resources(&mut page, c)?;
                 for (k, (name, value)) in c.extras.fields.iter().enumerate() {
                     let rect = Rectangle::new(Point::new(50.0, 50.0 + 20.0 * k as f64), Point::new(200.0, 65.0 + 20.0 * k as f64));
                     let widget = Widget::new(rect);
@@ -97,8 +134,12 @@ pub fn write(c: &Case, clock: i64) -> Result<Vec<u8>, String> {
         }
         doc = doc2;
     }
-    oxidize_pdf::verif_clock::set_fixed_clock(Some(clock));
-    doc.to_bytes_with_config(c.cfg.to_lib()).map_err(|e| format!("to_bytes_with_config: {e}"))
+    let mut out = Vec::new();
+    for _ in 0..times {
+        oxidize_pdf::verif_clock::set_fixed_clock(Some(clock));
+        out.push(doc.to_bytes_with_config(c.cfg.to_lib()).map_err(|e| format!("to_bytes_with_config: {e}"))?);
+    }
+    Ok(out)
 }
 
 const CLOCK: i64 = 1_704_164_645;
@@ -146,11 +187,14 @@ pub fn check(c: &Case) -> Outcome {
     let mut o = Outcome::new();
     let layout = c.cfg.name();
     o.label(format!("layout={layout}"));
-    let multi = c.prog.pages.iter().any(|p| p.images.len() >= 2 || p.calls.iter().filter(|x| matches!(x, progdoc::Call::Text { .. })).count() >= 2) || c.extras.fields.len() + c.extras.annotations.len() + c.extras.outline.len() >= 2;
+    let multi = c.prog.pages.iter().any(|p| p.images.len() >= 2 || p.calls.iter().filter(|x| matches!(x, progdoc::Call::Text { .. })).count() >= 2) || c.extras.fields.len() + c.extras.annotations.len() + c.extras.outline.len() >= 2 || c.extras.icc.len() >= 2 || c.extras.patterns >= 2 || c.extras.shadings >= 2;
     o.nontrivial(multi);
     o.label_if(!c.extras.fields.is_empty(), "form-fields");
     o.label_if(!c.extras.annotations.is_empty(), "annotations");
     o.label_if(!c.extras.outline.is_empty(), "outline");
+    o.label_if(c.extras.icc.len() >= 2, "icc>=2");
+    o.label_if(c.extras.patterns >= 2, "patterns>=2");
+    o.label_if(c.extras.shadings >= 2, "shadings>=2");
     let first = match write(c, CLOCK) {
         Ok(b) => b,
         Err(_) => {
@@ -159,6 +203,22 @@ pub fn check(c: &Case) -> Outcome {
         }
     };
     let lay0 = layout.split('+').next().unwrap().to_string();
+    // the same Document object serialised again and again (state left behind by a write must not leak into the next)
+    match write_n(c, CLOCK, 3) {
+        Ok(v) => {
+            for (k, b) in v.iter().enumerate() {
+                if *b != first {
+                    let i = first.iter().zip(b).position(|(x, y)| x != y).unwrap_or(0);
+                    o.fail("C20/same-object-identical", format!("layout={lay0},where={}", region(&first, i)), format!("serialisation {} of the same Document differs from a fresh build: {}", k + 1, first_diff(&first, b)));
+                    return o;
+                }
+            }
+        }
+        Err(e) => {
+            o.fail("C20/same-object-identical", format!("layout={lay0},error"), e);
+            return o;
+        }
+    }
     for k in 0..2 {
         match write(c, CLOCK) {
             Ok(b) if b == first => {}
@@ -246,11 +306,14 @@ fn extras() -> impl Strategy<Value = Extras> {
         prop::collection::vec((any::<u8>(), "[A-Za-z0-9 ]{0,12}"), 0..4),
         prop::collection::vec(("[A-Za-z0-9 ]{1,12}", any::<u8>()), 0..4),
         prop::collection::vec(("[a-z]{1,6}[0-9]", "[A-Za-z0-9 ]{0,10}"), 0..4),
+        prop_oneof![2 => Just(vec![]), 1 => prop::collection::vec(any::<u8>(), 1..7)],
+        prop_oneof![3 => Just(0u8), 1 => 1u8..5],
+        prop_oneof![3 => Just(0u8), 1 => 1u8..5],
     )
-        .prop_map(|(annotations, outline, mut fields)| {
+        .prop_map(|(annotations, outline, mut fields, icc, patterns, shadings)| {
             let mut seen = std::collections::BTreeSet::new();
             fields.retain(|f| seen.insert(f.0.clone()));
-            Extras { annotations, outline, fields }
+            Extras { annotations, outline, fields, icc, patterns, shadings }
         })
 }
 
@@ -260,7 +323,7 @@ fn strategy() -> impl Strategy<Value = Case> {
 
 fn run(ctx: &Ctx) {
     ctx.set_shrink_budget(300);
-    ctx.run_sub("identical", ctx.tier.pick(700, 12_000), strategy, check);
+    ctx.run_sub("identical", ctx.tier.pick(2_000, 20_000), strategy, check);
     ctx.run_sub("clock", ctx.tier.pick(300, 5_000), strategy, check_clock);
 }
 
